@@ -7,6 +7,7 @@
 //! declarative oracle of `oracle.rs` and against the permutation-invariance oracle.
 
 mod ast;
+mod encode;
 mod gen;
 mod oracle;
 mod real;
@@ -229,7 +230,7 @@ fn c18(args: &Args) {
     let exhaustive_n = cases.len();
     // 2./3. seeded random graphs and single-edit mutants
     let mut rng = Rng::new(args.seed);
-    let (n_random, n_bases, per_base) = if thorough { (150_000, 2_000, 60) } else { (15_000, 150, 40) };
+    let (n_random, n_bases, per_base) = if thorough { (100_000, 1_000, 60) } else { (30_000, 300, 40) };
     gen::random_cases(&mut cases, &mut rng, n_random);
     let is_sound = |lines: &[Line]| -> bool {
         let mut f = real::Filler(Rng::new(7));
@@ -240,6 +241,14 @@ fn c18(args: &Args) {
         let views: Vec<oracle::DefView> = defs.iter().map(oracle::DefView::new).collect();
         oracle::violated(&views, Mode::Compat).is_empty() && oracle::violated(&views, Mode::Strict).is_empty()
     };
+    // real IDLs (System program, shipped example programs) as additional mutation bases
+    let real_bases: Vec<(String, Vec<Line>)> = encode::real_idls()
+        .into_iter()
+        .map(|(n, ds)| (format!("real:{n}"), ds.iter().flat_map(encode::lines).collect::<Vec<Line>>()))
+        .collect();
+    rec.extra.insert("real_idls".into(), serde_json::json!(real_bases.iter().map(|(n, l)| format!("{n} ({} lines)", l.len())).collect::<Vec<_>>()));
+    let per_real = if thorough { 1500 } else { 300 };
+    gen::mutant_cases(&mut cases, &mut rng, 0, per_real, &real_bases, &is_sound);
     gen::mutant_cases(&mut cases, &mut rng, n_bases, per_base, &[], &is_sound);
     let mut sampled_kinds = std::collections::BTreeSet::new();
     for c in &cases {
